@@ -373,7 +373,7 @@ def _incoming_edges(cx, blk, depth=0):
                     out.append((pb, de, ("eq", v)))
             if t["otherwise"] == blk:
                 out.append((pb, de, ("ne", [v for v, _ in t["arms"]])))
-        elif t["k"] == "goto" and depth < 4 and not any(st["k"] == "assign" for st in b["blocks"][pb]["stmts"]):
+        elif t["k"] == "goto" and depth < 4:
             sub = _incoming_edges(cx, pb, depth + 1)
             if not sub:
                 return None
